@@ -184,7 +184,7 @@ def peer_over_the_wire(ctx, addr):
             ctx.traces_validated += 1
 
 
-def job_merged(proto, hist, addr, cuts=()):
+def job_merged(proto, hist, addr, cuts=(), noise=0):
     """the same history with every maximal run of consecutive datagram operations of one exporter sent as ONE
     message holding several sets ('announced earlier in the same message'); cuts: operation indices at which a new
     message is started anyway.  Returns (job, groups)."""
@@ -203,6 +203,9 @@ def job_merged(proto, hist, addr, cuts=()):
             msgs.append(job_of(proto, [op0], addr)["msgs"][0])
             continue
         body = [o for n in idx for o in sets_of(proto, hist[n])]
+        # noise: the message starts with that many data sets of templates nobody has announced (a collector that has just been
+        # restarted sees little else); each is reported, none of them changes what the sets behind it mean
+        body = [o for k in range(noise) for o in u16(900 + k) + u16(8) + [k, 1, 2, 3]] + body
         if proto == "ipfix":
             msgs.append({"exp": exp, "buf": [0, 10] + u16(16 + len(body)) + [0] * 12 + body})
         else:
@@ -210,9 +213,9 @@ def job_merged(proto, hist, addr, cuts=()):
     return {"msgs": msgs}, groups
 
 
-def judge_merged(ctx, proto, hist, addr, job, groups, r):
+def judge_merged(ctx, proto, hist, addr, job, groups, r, noise=0):
     name = codec.P[proto]["name"]
-    key = [proto, "merged", [g[1] for g in groups], [(addr[o["e"]], o["op"], o["i"], o["v"]) for o in hist]]
+    key = [proto, "merged", noise, [g[1] for g in groups], [(addr[o["e"]], o["op"], o["i"], o["v"]) for o in hist]]
     ctx.count(key, nontrivial=any(len(g[1]) > 1 for g in groups))
     if r.get("skipped") or "killed" in r:
         return
@@ -231,7 +234,7 @@ def judge_merged(ctx, proto, hist, addr, job, groups, r):
             ctx.violation("%s: a message holding several sets panicked: %s" % (name, x["panic"]), {"history": hist, "addresses": addr})
             return
         got = [[(f["i"], tuple(f["v"]["o"])) for f in rec] for rec in x["recs"]]
-        st = "nonfatal" if unknown else "ok"
+        st = "nonfatal" if (unknown or noise) else "ok"
         if x["st"] != st or got != want:
             ops = [(hist[n]["op"], hist[n]["i"], hist[n]["v"]) for n in idx]
             ctx.violation("%s: one message from exporter %s holding the sets %s: every data set must be decoded with the template "
@@ -379,6 +382,17 @@ def check(ctx):
         for (h, groups), job, r in zip(mmeta, mjobs, res):
             judge_merged(ctx, proto, h, a4, job, groups, r)
         ctx.traces_validated += len(mjobs)
+        # ... and with 15, 16, 17 or 40 data sets of unknown templates in front of each message
+        njobs, nmeta = [], []
+        for k, h in enumerate(hists_one):
+            noise = (15, 16, 17, 40)[k % 4]
+            job, groups = job_merged(proto, h, a4, (), noise)
+            njobs.append(job)
+            nmeta.append((h, groups, noise))
+        res = flowjobs.run_jobs(ctx, drv, codec.P[proto]["jobs"], njobs, tag="c04n_" + proto, timeout=3000)
+        for (h, groups, noise), job, r in zip(nmeta, njobs, res):
+            judge_merged(ctx, proto, h, a4, job, groups, r, noise)
+        ctx.traces_validated += len(njobs)
     ctx.sample({"history": hists[len(hists) // 2], "exporters": a4})
     peer_over_the_wire(ctx, a4)
     # ---- B: interleaved multi-exporter histories validated by the reference collector
